@@ -169,19 +169,45 @@ def run(cx, rep):
     if t is None:
         rep.anchor_missing("C05.1", impl + "is_empty")
     else:
-        ms = [n for n in walk(t["body"]) if n["k"] == "Match" and any((a["pat"].get("def") or "").endswith("IsEmptyStatus::IsEmpty") or
-                                                                        (a["pat"].get("def") or "").endswith("IsEmptyStatus::NotEmpty") for a in n["arms"])]
-        ok = False
-        if len(ms) == 1:
-            arms = ms[0]["arms"]
+        def status_matches(body):
+            return [n for n in walk(body) if n["k"] == "Match" and any((a["pat"].get("def") or "").endswith("IsEmptyStatus::IsEmpty") or
+                                                                       (a["pat"].get("def") or "").endswith("IsEmptyStatus::NotEmpty") for a in n["arms"])]
+
+        def only_is_empty_is_true(m):
             vals = {}
-            for a in arms:
+            for a in m["arms"]:
                 d = (a["pat"].get("def") or "_").rsplit("::", 1)[-1]
                 lits = [x["v"] for x in walk(a["body"]) if x["k"] == "Lit" and x.get("lit") == "bool"]
                 vals[d] = lits[0] if lits else None
-            ok = vals.get("IsEmpty") == "true" and all(v == "false" for k, v in vals.items() if k != "IsEmpty")
+            return vals.get("IsEmpty") == "true" and all(v == "false" for k, v in vals.items() if k != "IsEmpty")
+        ms = status_matches(t["body"])
+        status_calls = [n for n in walk(t["body"]) if n["k"] == "MethodCall" and (n.get("callee") or "").endswith("is_empty_status")]
+        ok = False
+        if len(ms) == 1:
+            ok = only_is_empty_is_true(ms[0])
             st = [n for n in walk(ms[0]["scrut"]) if n["k"] == "MethodCall" and (n.get("callee") or "").endswith("is_empty_status")]
             ok = ok and len(st) == 1
+        elif not ms and len(status_calls) == 1:
+            # the comparison with IsEmpty may sit behind a predicate of the status type (benign b91:
+            # `self.is_empty_status(b)?.is_empty()` with `IsEmptyStatus::is_empty = matches!(self, IsEmpty)`): the one
+            # local function applied to the status is followed and must BE that comparison - a single match on its own
+            # parameter, IsEmpty => true, everything else => false, no other control flow, no negation on either side
+            fcrate = F.fns[impl + "is_empty"].crate
+            preds = []
+            for n in walk(t["body"]):
+                if n["k"] not in ("Call", "MethodCall") or n is status_calls[0]:
+                    continue
+                tg = F._callee_gid(fcrate, (n.get("callee") if n["k"] == "Call" else (n.get("resolved") or n.get("callee"))) or "")
+                subject = n["recv"] if n["k"] == "MethodCall" else (n["args"][0] if n.get("args") else None)
+                if tg in F.hir and subject is not None and any(x is status_calls[0] for x in walk(subject)):
+                    preds.append(tg)
+            if len(preds) == 1:
+                pt = F.hir[preds[0]]
+                pm = status_matches(pt["body"])
+                pps = [p.get("name") for p in pt["params"]]
+                other = [n for n in walk(pt["body"]) if n["k"] in ("If", "Ret", "Loop", "Call", "MethodCall") or (n["k"] == "Match" and not any(n is m_ for m_ in pm))]
+                negs = [n for b_ in (t["body"], pt["body"]) for n in walk(b_) if n["k"] == "Unary" and n.get("op") == "Not"]
+                ok = len(pm) == 1 and len(pps) == 1 and only_is_empty_is_true(pm[0]) and locals_in(pm[0]["scrut"]) == [pps[0]] and not other and not negs
         rep.ob("C05.1", "is_empty", ok, "is_empty must be `is_empty_status == IsEmpty`", F.fns[impl + "is_empty"].loc())
     t = F.hir.get(impl + "complement")
     if t is None:
